@@ -352,3 +352,9 @@ add(Contract(
              "same(self.default, default)", "hasattr_tmp(self) and same(self.tmp, when)"],
     raises={'AssertionError': ["not isinst(prototype, 'Field')"]},
     modifies=['self.*'], allocates=True))
+
+# a positioning pseudo-field has no value: constructing a packet leaves its placeholder slot unset (so that == skips it, C20)
+add(Contract(
+    'structural_fields:Move.init',
+    params={'self': 'ref:Move', 'packet': 'ref:Packet', 'defaults': 'conf'},
+    ensures=["hasslot(packet, self.field_name) == old(hasslot(packet, self.field_name))"], modifies=[]))
